@@ -292,6 +292,7 @@ func runC08(e *Engine, r *Report) {
 	}
 	ruleSnapshotStatusReported(e, r)
 	ruleShrunkPredicate(e, r)
+	ruleSyncUnconditional(e, r)
 }
 
 func derefNamed(t types.Type) types.Type {
